@@ -409,6 +409,27 @@ pub fn run(ctx: &mut Ctx) {
         }
         ctx.require("realistic-base-messages", 100);
     }
+    // ---- every one of the 65 536 type codes as an attribute appended BEHIND the FINGERPRINT of a
+    //      valid message, the length field raised to cover it: nothing may follow a FINGERPRINT,
+    //      whatever its type (the CRC in place is not the CRC of this buffer with this length) ----
+    {
+        let mut r4 = ctx.rng("behind-fingerprint", 0);
+        let (base, _c) = gen_realistic_message(&mut r4, 3);
+        let mut k = 0u64;
+        for t in 0..=0xffffu32 {
+            k += 1;
+            if !ctx.mine(k) {
+                continue;
+            }
+            let mut m = base.clone();
+            push_tlv(&mut m, &Tlv::new(t as u16, vec![0x42; (t as usize % 2) * 4]));
+            let l = m.len() - 20;
+            set_len(&mut m, l);
+            check_mutant(ctx, &m);
+            ctx.count("types-appended-behind-the-fingerprint");
+        }
+        ctx.require("types-appended-behind-the-fingerprint", 65_536);
+    }
     // near-miss relations on many more messages than the (expensive) fault enumeration can take
     {
         let nn = ctx.n(48_000, 480_000);
